@@ -145,6 +145,8 @@ def replay(r):
                 return self.inner(X)
         model = Wrap()
         model.train(bool(r.get("starts_in_training_mode", True)))
+        if r.get("bn") and "bn_child_in_training_mode" in r:
+            model.bn.train(bool(r["bn_child_in_training_mode"]))
     probe = torch.rand(1, A, LM, dtype=torch.float64, generator=torch.Generator().manual_seed(0), requires_grad=True)
 
     def beh():
@@ -155,6 +157,8 @@ def replay(r):
     model.eval()
     y0, g0 = beh()
     model.train(was_training)
+    if r.get("bn") and "bn_child_in_training_mode" in r:
+        model.bn.train(bool(r["bn_child_in_training_mode"]))
     if r.get("lazy_cache"):
         model._pos = None
     import copy
@@ -286,9 +290,14 @@ def worker(cfg):
                     X = X * self._pos
                 return self.inner(X)
         net = Net()
+        modes = {}
         fresh = Net() if cfg.get("history_ops") else None
         if cfg.get("bn"):
-            net.train(bool(core.Bool("starts_in_training_mode")))
+            modes = {"starts_in_training_mode": bool(core.Bool("starts_in_training_mode"))}
+            net.train(modes["starts_in_training_mode"])
+            # the mode of a sub-module is independent of the top-level flag (a head attached / re-trained after model.eval())
+            modes["bn_child_in_training_mode"] = bool(core.Bool("bn_child_in_training_mode"))
+            net.bn.train(modes["bn_child_in_training_mode"])
         params0 = [id(p) for p in net.parameters()]
         pvals0 = [p.a.copy() for p in net.parameters()]
         bufs0 = [b.a.copy() for b in net.buffers()]
@@ -360,15 +369,12 @@ def worker(cfg):
                                                          dict(cfg, at=0, site=None, entry=_rentry(entry)), replay))
                     return "raised"
         dls.warnings = __import__("warnings")
-        if faults.fired is None and faults.n > cfg["K"] and hist == 1:
-            # unwinding assertion: the run has more crash points than the bound K lets the solver choose from
-            raise core.Inconclusive("C07: %d fault sites reached but K = %d" % (faults.n, cfg["K"]))
         out["max_sites"] = max(out.get("max_sites", 0), faults.n)
         # ---- post-state
         left = net.n_hooks()
         mdl = ctx.model() if ctx.check() == z3.sat else None
         fa = core.model_value(mdl, faults.at) if mdl is not None else None
-        rp = dict(cfg, at=(faults.fired[2] if faults.fired else 0), site=(faults.fired[1] if faults.fired else ("target" if (cfg.get("bad_target") and target == 99) else None)))
+        rp = dict(cfg, **modes, at=(faults.fired[2] if faults.fired else 0), site=(faults.fired[1] if faults.fired else ("target" if (cfg.get("bad_target") and target == 99) else None)))
         ctx.stats.obligations += 1
         ok = True
         if left:
@@ -405,6 +411,9 @@ def worker(cfg):
                 out["violations"].append(C.violation("behaviour-changed", "plain forward / gradient of the model differs after %s%s" % (entry, (" (%s)" % beh1[:120]) if isinstance(beh1, str) else ""), dict(rp, entry=_rentry(entry)), replay))
         if ok:
             ctx.stats.discharged += 1
+        if ok and faults.fired is None and faults.n > cfg["K"] and hist == 1:
+            # unwinding assertion: the run has more crash points than the bound K lets the solver choose from
+            raise core.Inconclusive("C07: %d fault sites reached but K = %d" % (faults.n, cfg["K"]))
         if len(out["samples"]) < 3:
             out["samples"].append({"cfg": cfg, "fault": faults.fired, "outcome": outcome, "hooks_left": left})
         return "raised" if any(o.startswith("raised") for o in outcome) else "returned"
